@@ -36,6 +36,9 @@ func newState() *State {
 // VerifyFunction: first explore path by path (small, easy VCs); if that exceeds the
 // path budget, redo with state merging at post-dominators.
 func (e *Engine) VerifyFunction(fn *ssa.Function) *FuncReport {
+	if ct := e.contractFor(fn); ct != nil && ct.Merge {
+		return e.verifyFunction(fn, false)
+	}
 	rep := e.verifyFunction(fn, true)
 	for _, f := range rep.Failed {
 		if strings.Contains(f, "path limit") || strings.Contains(f, "fork limit") || strings.Contains(f, "time limit") || strings.Contains(f, "step limit") {
@@ -63,6 +66,18 @@ func (e *Engine) verifyFunction(fn *ssa.Function, noMerge bool) *FuncReport {
 		}
 	}
 	st := newState()
+	if fn.Pkg != nil && strings.HasPrefix(fn.Pkg.Pkg.Path(), modPath) && e.hasGlobalDecls(fn.Pkg.Pkg.Path()) {
+		ist, failed := e.entryStateFor(fn.Pkg.Pkg.Path())
+		if len(failed) == 0 {
+			st = ist
+			n := int64(0)
+			st.nextRg = &n
+		} else {
+			for _, f := range failed {
+				ex.fail("package init: " + f)
+			}
+		}
+	}
 	sig := fn.Signature
 	var args []Value
 	for i, p := range fn.Params {
@@ -112,6 +127,27 @@ func (e *Engine) verifyFunction(fn *ssa.Function, noMerge bool) *FuncReport {
 			st.AssumeCond(g)
 		}
 	}()
+	var ginvs []*GInv
+	for _, u := range append(append([]string{}, ct.Uses...), ct.Maintains...) {
+		gi := e.cf.GInvs[u]
+		if gi == nil {
+			ex.fail("unknown global invariant " + u)
+			continue
+		}
+		// functions that only read the global keep the invariant by their frame (every store
+		// outside `modifies` is an obligation); only writers re-prove it at exit
+		for _, m := range ct.Maintains {
+			if m == u {
+				ginvs = append(ginvs, gi)
+			}
+		}
+		g, err := env0.EvalBool(gi.Clause.Expr)
+		if err != nil {
+			ex.fail("ginv " + u + ": " + err.Error())
+			continue
+		}
+		st.Assume(g)
+	}
 	entry := st.Clone()
 	ex.entry = entry
 	ex.rootVars = env0.vars
@@ -157,6 +193,14 @@ func (e *Engine) verifyFunction(fn *ssa.Function, noMerge bool) *FuncReport {
 			env.vars[k] = v
 		}
 		bindResults(env.vars, sig, results)
+		for _, gi := range ginvs {
+			g, err := env.EvalBool(gi.Clause.Expr)
+			if err != nil {
+				ex.fail("ginv " + gi.Name + ": " + err.Error())
+				continue
+			}
+			ex.addObl(st2, "post", "ginv:"+gi.Name, g, gi.Clause.Text)
+		}
 		for _, c := range ct.Ensures {
 			g, err := env.EvalBool(c.Expr)
 			if err != nil {
@@ -263,21 +307,16 @@ func (e *SpecEnv) modItem(m string) modItem {
 		p := e.eval(n.Args[0])
 		return modItem{kind: "under", addr: p.V.(*Term)}
 	case "sel":
-		p := e.eval(n.Args[0])
-		pt, ok := p.T.Underlying().(*types.Pointer)
-		if !ok {
-			sfail("modifies x.F: x not a pointer")
-		}
-		s := pt.Elem().Underlying().(*types.Struct)
-		for i := 0; i < s.NumFields(); i++ {
-			if s.Field(i).Name() == n.Name {
-				return modItem{kind: "under", addr: FldAddr(p.V.(*Term), i)}
-			}
-		}
-		sfail("no field %s", n.Name)
+		a, _ := e.lvalAddr(n)
+		return modItem{kind: "under", addr: a}
 	case "slice":
 		sv := e.evalSlice(n)
 		return modItem{kind: "range", slice: sv.V.(*SliceV)}
+	}
+	// any other expression denoting a map (or pointer): everything under it
+	v := e.eval(n)
+	if t, ok := v.V.(*Term); ok && t.Sort == SAddr {
+		return modItem{kind: "under", addr: t}
 	}
 	sfail("unsupported modifies form %q", m)
 	return modItem{}
@@ -285,8 +324,11 @@ func (e *SpecEnv) modItem(m string) modItem {
 
 // isUnderSyntactic: is path of a an extension of path of p (same region)?
 func underTerm(a, p *Term) *Term {
-	if a.Op != "mkaddr" || p.Op != "mkaddr" {
-		return Eq(a, p)
+	if a.Op != "mkaddr" {
+		a = MkAddr(Rg(a), Pa(a))
+	}
+	if p.Op != "mkaddr" {
+		p = MkAddr(Rg(p), Pa(p))
 	}
 	rgEq := Eq(a.Args[0], p.Args[0])
 	if rgEq.IsFalse() {
@@ -364,4 +406,83 @@ func frameRangeGoal(dst *SliceV, n *Term, mods []modItem) *Term {
 		}
 	}
 	return Or(alts...)
+}
+
+func (e *Engine) hasGlobalDecls(pkgPath string) bool {
+	for _, d := range e.cf.Immutables {
+		if d.pkgPath == pkgPath {
+			return true
+		}
+	}
+	for _, d := range e.cf.Mutables {
+		if d.pkgPath == pkgPath {
+			return true
+		}
+	}
+	return false
+}
+
+// VerifyPackageGlobals: obligations about a package's globals: init establishes every
+// global invariant; nothing outside init writes immutable globals.
+func (e *Engine) VerifyPackageGlobals(pkgPath string) *FuncReport {
+	name := strings.TrimPrefix(strings.TrimPrefix(pkgPath, modPath), "/")
+	if name == "" {
+		name = "lorawan"
+	}
+	rep := &FuncReport{Fn: name + ".init", HasCtr: true, TrivialNames: map[string]string{}, ClauseProps: map[string][]string{}}
+	if !e.hasGlobalDecls(pkgPath) {
+		return nil
+	}
+	pi := e.runInit(pkgPath)
+	for _, f := range pi.failed {
+		rep.Failed = append(rep.Failed, "package init: "+f)
+	}
+	rep.Paths = 1
+	for _, v := range e.checkGlobalWrites(pkgPath) {
+		rep.Obls = append(rep.Obls, &Obligation{Name: rep.Fn + "#immutable-globals", Func: rep.Fn, Label: "immutable-globals", Kind: "frame", Goal: False, Where: v})
+	}
+	if len(e.checkGlobalWrites(pkgPath)) == 0 {
+		rep.TrivialNames[rep.Fn+"#immutable-globals"] = "frame"
+		rep.Trivial++
+	}
+	if len(pi.failed) > 0 || pi.st == nil {
+		return rep
+	}
+	p := e.ssaPkgs[pkgPath]
+	ex := &Exec{eng: e, root: p.Func("init"), rootName: rep.Fn, inlined: map[string]bool{}, usedCtr: map[string]bool{}, intrUsed: map[string]bool{},
+		trivialNames: rep.TrivialNames, clauseProps: map[string][]string{}, ordinals: map[ssa.Instruction]string{}}
+	var names []string
+	for n, gi := range e.cf.GInvs {
+		if gi.pkgPath == pkgPath {
+			names = append(names, n)
+		}
+	}
+	sortStrings(names)
+	for _, n := range names {
+		gi := e.cf.GInvs[n]
+		env := &SpecEnv{ex: ex, vars: map[string]TV{}, st: pi.st, pkg: p.Pkg, mode: "prove"}
+		g, err := env.EvalBool(gi.Clause.Expr)
+		if err != nil {
+			rep.Failed = append(rep.Failed, "ginv "+n+": "+err.Error())
+			continue
+		}
+		// the init state is closed under "absent keys are absent": use the filtered state's axioms
+		e.entryStateFor(pkgPath)
+		st := pi.st.Clone()
+		st.assumes = append(st.assumes, e.absentAxioms(pi, st, false)...)
+		ex.addObl(st, "post", "ginv:"+n, g, gi.Clause.Text)
+	}
+	rep.Obls = append(rep.Obls, ex.obls...)
+	rep.Trivial += ex.trivial
+	return rep
+}
+
+func absentAxiomsOnly(st *State) []*Term {
+	var out []*Term
+	for _, a := range st.assumes {
+		if a.Op == "forall" {
+			out = append(out, a)
+		}
+	}
+	return out
 }
